@@ -155,11 +155,108 @@ def plan(prop, tier):
         many("c15-generated", gcfgs, shards=8, main=gcfgs)
         many("c05-parse", ["strict"], profile="dbg", shards=4, scale=0.5, params=P, main=())
         many("c15-generated", ["strict"], profile="dbg", shards=4, scale=0.5, main=())
+    elif prop == "C16":
+        cfgs = ["serde", "serde-strict", "serde-buf", "serde-buf-strict"]
+        if not q:
+            cfgs += ["serde-unsafe-strict"]
+        many("c16-formats", cfgs, shards=8, main=cfgs)
+        many("c16-mock", cfgs, shards=8, main=cfgs)
+        many("c16-formats", ["serde-strict", "serde-buf"], profile="dbg", shards=4, scale=0.25, main=())
+        many("c16-mock", ["serde-strict", "serde-buf"], profile="dbg", shards=4, scale=0.25, main=())
+    elif prop == "C07":
+        tcfgs = configs.TRANSCRIPT_CONFIGS_QUICK if q else configs.TRANSCRIPT_CONFIGS
+        for c in tcfgs + ["strict-naive", "strict"]:
+            steps.append(S("c07-transcript", c, shards=4 if q else 16))
+        P = {"property": "C07"}
+        bcfgs = ["default", "static-sse2", "static-sse41"] if q else ["default", "dyn-nohex", "static-sse2", "static-sse41", "static-avx2", "unsafe", "unsafe-static-avx2", "unsafe-static-sse41"]
+        many("c02-body", bcfgs, shards=8, params=P, main=bcfgs, scale=0.5 if q else 1.0)
+        many("c01-agg", bcfgs, shards=4, params=P, main=bcfgs)
+        for c in (["default"] if q else ["default", "dyn-nohex", "unsafe"]):
+            steps.append(S("c07-firstcall", c, shards=400 if q else 4000, timeout=600))
+    elif prop == "C18":
+        cfgs = ["alloc-default", "alloc-naive", "alloc-static-avx2", "alloc-lowmem-a", "alloc-strict", "alloc-unsafe", "alloc-embedded"]
+        for c in cfgs:
+            # 100 processes: every (variant, operation) pair is some process's very first crate call
+            steps.append(S("c18-alloc", c, shards=100, scale=1.0 if c == "alloc-default" else 0.5))
+    elif prop == "C17":
+        cfgs = ["default", "unsafe", "naive", "unsafe-naive", "static-sse2", "static-sse41", "static-avx2",
+                "unsafe-static-avx2", "strict", "serde-strict"]
+        if not q:
+            cfgs += ["unsafe-static-sse41", "unsafe-lowmem-b", "lowmem-a", "lowmem-b", "lowmem-c", "embedded", "serde-unsafe-strict"]
+        for c in cfgs:
+            steps.append(S("c17-fuzz", c, shards=8, scale=1.0 if c in ("default", "unsafe") else 0.25, crash_is_violation=True))
+        for c in ["default", "unsafe", "naive", "static-sse41", "strict"]:
+            steps.append(S("c17-fuzz", c, profile="dbg", shards=8, scale=0.25, crash_is_violation=True))
+        for c in ["inv-default", "inv-naive", "inv-serde-strict"]:
+            steps.append(S("c17-fuzz", c, shards=8, scale=0.5, crash_is_violation=True))
+        # enabling `unsafe` changes no result: transcripts
+        for c in ["naive", "default", "unsafe", "unsafe-naive", "unsafe-static-avx2", "static-avx2"]:
+            steps.append(S("c07-transcript", c, shards=4, params={"property": "C17"}))
     return steps
 
 
-def post_process(prop, tier, steps, results, monitors_out, run_root):
-    return None
+TRANSCRIPT_GROUPS = {
+    "lenient": configs.TRANSCRIPT_CONFIGS,
+    "strict": ["strict-naive", "strict"],
+}
+
+
+def post_process(prop, tier, seed, steps, monitors_out, run_single):
+    if prop not in ("C07", "C17"):
+        return None
+    out = {"violations": [], "inconclusive": [], "evaluations": 0, "coverage": {}}
+    # configuration transcripts: compare block digests with the reference configuration
+    by_cfg = {}
+    for mo in monitors_out:
+        if mo["monitor"] == "c07-transcript" and mo["profile"] == "rel" and mo["tool"] == "native":
+            d = {}
+            for ent in mo["sets"].get("block-digests", []):
+                b, h = ent.split(":")
+                d[int(b)] = h
+            by_cfg[mo["config"]] = d
+            mo["sets"]["block-digests"] = ["%d digests (elided)" % len(d)]
+    compared = []
+    for group, cfgs in TRANSCRIPT_GROUPS.items():
+        present = [c for c in cfgs if c in by_cfg]
+        if len(present) < 2:
+            continue
+        ref = present[0]
+        for c in present[1:]:
+            a, b = by_cfg[ref], by_cfg[c]
+            if set(a) != set(b) or not a:
+                out["inconclusive"].append("transcript of %s covers different blocks than %s (%d vs %d)" % (c, ref, len(b), len(a)))
+                continue
+            out["evaluations"] += len(a)
+            compared.append("%s==%s (%d blocks)" % (c, ref, len(a)))
+            diff = sorted(k for k in a if a[k] != b[k])
+            if not diff:
+                continue
+            blk = diff[0]
+            ra = run_single(ref, "rel", "native", "c07-transcript", {"dump_block": blk})
+            rb = run_single(c, "rel", "native", "c07-transcript", {"dump_block": blk})
+            wa = wb = None
+            idx = None
+            try:
+                la = ra["samples"][0]["records"]
+                lb = rb["samples"][0]["records"]
+                for x, y in zip(la, lb):
+                    if x != y:
+                        wa, wb = x, y
+                        idx = int(x.split("|")[0])
+                        break
+            except Exception as e:  # noqa
+                out["inconclusive"].append("could not dump block %d of %s/%s: %s" % (blk, ref, c, e))
+                continue
+            kind = (wa or "?|?").split("|")[1]
+            out["violations"].append({
+                "signature": "transcript|%s-vs-%s|%s" % (c, ref, kind),
+                "monitor": "c07-transcript",
+                "what": "configuration %s differs from %s at operation %s (%d differing blocks): %s  VERSUS  %s" % (c, ref, idx, len(diff), wb, wa),
+                "case": {"op_index": idx, "config_a": ref, "config_b": c, "record_a": wa, "record_b": wb, "differing_blocks": len(diff)},
+                "step_info": {"config": c, "profile": "rel", "tool": "native", "monitor": "c07-transcript", "params": {}},
+            })
+    out["coverage"]["transcripts_compared"] = compared
+    return out
 
 
 def replay_special(prop, rp, path):
